@@ -42,6 +42,8 @@ BODY_EXTRA = "total = 0\nprint(total)"
 MODULE_DOCS = {
     "plain": '"""Module documentation.\n\nSecond paragraph of the module docstring.\n"""\n',
     "table": '"""Settings module.\n\nDATA_DIR      where the data lives\nusage:    prog [options]\n"""\n',
+    # the layout a re-emitted module docstring ends up in (text in column 0 between two newlines): must survive exactly
+    "canonical": '"""\nSettings module.\n\nDATA_DIR      where the data lives\nusage:    prog [options]\n"""\n',
 }
 
 
@@ -65,7 +67,7 @@ def build_cases(tier):
                     cases.append({"mode": "module", "target": target, "prefix": list(p), "suffix": list(s), "state": state, "newline": nl})
     # a module docstring (plain / with an aligned table, i.e. runs of spaces) in front of everything
     for target in pj.KINDS:
-        for doc in ("plain", "table"):
+        for doc in ("plain", "table", "canonical"):
             for p, s in [((), ()), ((1,), ()), ((), (2,)), ((0,), (5,))]:
                 for state in ("absent", "stale", "agree"):
                     cases.append({"mode": "module", "target": target, "prefix": list(p), "suffix": list(s), "state": state,
@@ -203,6 +205,12 @@ class C11(core.Check):
                               before=len(o_before), after=len(o_after)))
             sites.append(site(len(n_after) == 1, dict(base, field="one_definition"), fail="definition_count", count=len(n_after)))
             named = n_after
+            if case.get("moddoc"):
+                # whatever happens to the layout of the module docstring, its words must survive, in order
+                wb = (ast.get_docstring(ast.parse(src), clean=False) or "").split()
+                wa = (ast.get_docstring(ast.parse(after), clean=False) or "").split()
+                sites.append(site(wb == wa, dict(base, field="module_docstring_words"), fail="module_docstring_text_changed",
+                                  got=core.short(" ".join(wa), 80)))
         else:
             out_b, mem_b, n_before = class_members_others(src, "Trainer", name)
             out_a, mem_a, n_after = class_members_others(after, "Trainer", name)
